@@ -710,4 +710,221 @@ theorem parseURI_case (raw raw' : Buf) (pu : PsipURI) (h : UclCaseVar raw raw') 
       rcases raw[3]? with _ | _ <;> rcases raw'[0]? with _ | _ <;> rcases raw'[1]? with _ | _ <;>
       rcases raw'[2]? with _ | _ <;> rcases raw'[3]? with _ | _ <;> rfl
 
+/-! ### (3b) letter case of the host: URIParseCmp on raw strings that differ only there -/
+
+theorem ucl_seg_congr {b b' : Buf} (hsz : b'.size = b.size) (f : PField)
+    (h : ∀ j, f.offs ≤ j → j < f.offs + f.len → b'[j]? = b[j]?) : uclSeg b' f = uclSeg b f := by
+  unfold uclSeg
+  apply Array.ext_getElem?
+  intro i
+  rw [Array.getElem?_extract, Array.getElem?_extract, hsz]
+  by_cases hi : i < min (f.offs + f.len) b.size - f.offs
+  · simp only [hi, ↓reduceIte]; exact h _ (by omega) (by omega)
+  · simp only [hi, ↓reduceIte]
+
+theorem ucl_seg_caseEq {b b' : Buf} (h : UclCaseVar b b') (f : PField) : CaseEq (uclSeg b' f) (uclSeg b f) := by
+  have hsz := h.size
+  apply UclCaseVar.caseEq
+  intro i
+  unfold uclSeg
+  rw [Array.getElem?_extract, Array.getElem?_extract, hsz]
+  by_cases hi : i < min (f.offs + f.len) b.size - f.offs
+  · simp only [hi, ↓reduceIte]; exact (h _).symm
+  · simp only [hi, ↓reduceIte]
+
+/-- user and password lie before the host, parameters and headers after it (or are empty) -/
+theorem ucl_layout_disj {b : Buf} {k : Nat} {u : PsipURI} (h : URILayout b k u) :
+    u.user.offs + u.user.len ≤ u.host.offs ∧ u.pass.offs + u.pass.len ≤ u.host.offs ∧
+    (u.params.len = 0 ∨ u.host.offs + u.host.len ≤ u.params.offs) ∧
+    (u.headers.len = 0 ∨ u.host.offs + u.host.len ≤ u.headers.offs) := by
+  obtain ⟨hsch, hup, hhl, h1, h2, h3, hend⟩ := h
+  have a0 := hup.arith
+  have a1 := h1.arith
+  have a2 := h2.arith
+  have a3 := h3.arith
+  generalize uafter (k + u.user.len) u.pass = q0 at a0
+  generalize uafter (uafter (uafter (u.host.offs + u.host.len) u.port) u.params) u.headers = q3 at a3 hend
+  generalize uafter (uafter (u.host.offs + u.host.len) u.port) u.params = q2 at a2 a3
+  generalize uafter (u.host.offs + u.host.len) u.port = q1 at a1 a2
+  refine ⟨by omega, by omega, by omega, by omega⟩
+
+/-- in an accepted URI the bytes of user, password, parameter string and header string lie outside the host -/
+theorem ucl_parse_disj (raw : Buf) (hfit : raw.size ≤ 65535) (hacc : (parseURI raw {}).1 = .none) :
+    ∀ f ∈ [(parseURI raw {}).2.2.1.user, (parseURI raw {}).2.2.1.pass, (parseURI raw {}).2.2.1.params,
+        (parseURI raw {}).2.2.1.headers], ∀ j, f.offs ≤ j → j < f.offs + f.len →
+      j < (parseURI raw {}).2.2.1.host.offs ∨
+        (parseURI raw {}).2.2.1.host.offs + (parseURI raw {}).2.2.1.host.len ≤ j := by
+  obtain ⟨_, t, k, u0, hk, hl, hty, hu⟩ := (parseURI_ok raw hfit).2.2 hacc
+  have hk0 : 0 < k := by rcases hk with ⟨_, rfl, _⟩ | ⟨_, rfl, _⟩ | ⟨_, rfl, _⟩ <;> decide
+  rw [hu]
+  intro f hf j hj1 hj2
+  by_cases ht : t = TELuri
+  · rw [if_pos ht]
+    right
+    show (0 : Nat) + 0 ≤ j
+    omega
+  · rw [if_neg ht] at hf ⊢
+    obtain ⟨d1, d2, d3, d4⟩ := ucl_layout_disj hl
+    simp only [List.mem_cons, List.not_mem_nil, or_false] at hf
+    rcases hf with rfl | rfl | rfl | rfl <;> omega
+
+/-- `raw'` is `raw` with the letter case of some bytes of the HOST changed (the host as ParseURI delimits it in
+    `raw`) and nothing else: equal up to case everywhere, identical before and after the host -/
+structure UclHostCaseVariant (raw raw' : Buf) : Prop where
+  caseEq : CaseEq raw raw'
+  before : raw'.toList.take (parseURI raw {}).2.2.1.host.offs = raw.toList.take (parseURI raw {}).2.2.1.host.offs
+  after : raw'.toList.drop ((parseURI raw {}).2.2.1.host.offs + (parseURI raw {}).2.2.1.host.len) =
+    raw.toList.drop ((parseURI raw {}).2.2.1.host.offs + (parseURI raw {}).2.2.1.host.len)
+
+instance (raw raw' : Buf) : Decidable (UclHostCaseVariant raw raw') :=
+  decidable_of_iff (CaseEq raw raw' ∧
+    raw'.toList.take (parseURI raw {}).2.2.1.host.offs = raw.toList.take (parseURI raw {}).2.2.1.host.offs ∧
+    raw'.toList.drop ((parseURI raw {}).2.2.1.host.offs + (parseURI raw {}).2.2.1.host.len) =
+      raw.toList.drop ((parseURI raw {}).2.2.1.host.offs + (parseURI raw {}).2.2.1.host.len))
+    ⟨fun ⟨a, b, c⟩ => ⟨a, b, c⟩, fun ⟨a, b, c⟩ => ⟨a, b, c⟩⟩
+
+theorem UclHostCaseVariant.outside {raw raw' : Buf} (v : UclHostCaseVariant raw raw') (j : Nat)
+    (hj : j < (parseURI raw {}).2.2.1.host.offs ∨
+      (parseURI raw {}).2.2.1.host.offs + (parseURI raw {}).2.2.1.host.len ≤ j) : raw'[j]? = raw[j]? := by
+  rcases hj with hj | hj
+  · have := congrArg (fun l => l[j]?) v.before
+    simp only [List.getElem?_take, hj, ↓reduceIte, Array.getElem?_toList] at this
+    exact this
+  · have e : ∀ (b : Buf), b[j]? = (b.toList.drop ((parseURI raw {}).2.2.1.host.offs +
+        (parseURI raw {}).2.2.1.host.len))[j - ((parseURI raw {}).2.2.1.host.offs +
+        (parseURI raw {}).2.2.1.host.len)]? := by
+      intro b
+      rw [List.getElem?_drop, Array.getElem?_toList]
+      congr 1
+      omega
+    rw [e raw, e raw', v.after]
+
+/-- what URICmp reads from an accepted URI is unchanged by a host-case variant, except the host, which changes only
+    in letter case -/
+theorem ucl_host_variant_get (raw raw' : Buf) (hfit : raw.size ≤ 65535) (hacc : (parseURI raw {}).1 = .none)
+    (v : UclHostCaseVariant raw raw') :
+    (parseURI raw {}).2.2.1.user.get? raw' = (parseURI raw {}).2.2.1.user.get? raw ∧
+    (parseURI raw {}).2.2.1.pass.get? raw' = (parseURI raw {}).2.2.1.pass.get? raw ∧
+    (parseURI raw {}).2.2.1.params.get? raw' = (parseURI raw {}).2.2.1.params.get? raw ∧
+    (parseURI raw {}).2.2.1.headers.get? raw' = (parseURI raw {}).2.2.1.headers.get? raw ∧
+    FEq (parseURI raw {}).2.2.1.host raw' (parseURI raw {}).2.2.1.host raw := by
+  have hv := UclCaseVar.of_caseEq v.caseEq
+  have hsz := hv.size
+  have hp' : parseURI raw' {} = parseURI raw {} := parseURI_case raw raw' {} hv
+  have g := ucl_parse_get raw hfit hacc
+  have g' := ucl_parse_get raw' (by omega) (by rw [hp']; exact hacc)
+  rw [hp'] at g'
+  have hd := ucl_parse_disj raw hfit hacc
+  have key : ∀ f ∈ [(parseURI raw {}).2.2.1.user, (parseURI raw {}).2.2.1.pass, (parseURI raw {}).2.2.1.params,
+      (parseURI raw {}).2.2.1.headers], uclSeg raw' f = uclSeg raw f := fun f hf =>
+    ucl_seg_congr hsz f (fun j h1 h2 => v.outside j (hd f hf j h1 h2))
+  refine ⟨?_, ?_, ?_, ?_, ?_⟩
+  · rw [g' _ (by simp), g _ (by simp), key _ (by simp)]
+  · rw [g' _ (by simp), g _ (by simp), key _ (by simp)]
+  · rw [g' _ (by simp), g _ (by simp), key _ (by simp)]
+  · rw [g' _ (by simp), g _ (by simp), key _ (by simp)]
+  · exact ⟨_, _, g' _ (by simp), g _ (by simp), ucl_seg_caseEq hv _⟩
+
+/-- URICmp depends on the buffers only through the five components it reads, and on the host only up to case -/
+theorem ucl_uriCmp_get_congr (u1 : PsipURI) (b1 b1' : Buf) (u2 : PsipURI) (b2 b2' : Buf) (f : Nat)
+    (h1 : u1.user.get? b1' = u1.user.get? b1 ∧ u1.pass.get? b1' = u1.pass.get? b1 ∧
+      u1.params.get? b1' = u1.params.get? b1 ∧ u1.headers.get? b1' = u1.headers.get? b1 ∧ FEq u1.host b1' u1.host b1)
+    (h2 : u2.user.get? b2' = u2.user.get? b2 ∧ u2.pass.get? b2' = u2.pass.get? b2 ∧
+      u2.params.get? b2' = u2.params.get? b2 ∧ u2.headers.get? b2' = u2.headers.get? b2 ∧ FEq u2.host b2' u2.host b2) :
+    uriCmp u1 b1' u2 b2' f = uriCmp u1 b1 u2 b2 f := by
+  rw [uriCmp_eq, uriCmp_eq, uriCmpShort_congr u1 b1' u1 b1 u2 b2' u2 b2 f ⟨rfl, rfl, h1.1, h1.2.1, h1.2.2.2.2⟩
+    ⟨rfl, rfl, h2.1, h2.2.1, h2.2.2.2.2⟩]
+  have hp : uriCmpParamsPart u1 b1' u2 b2' = uriCmpParamsPart u1 b1 u2 b2 := by
+    unfold uriCmpParamsPart; rw [h1.2.2.1, h2.2.2.1]
+  have hh : uriCmpHdrsPart u1 b1' u2 b2' = uriCmpHdrsPart u1 b1 u2 b2 := by
+    unfold uriCmpHdrsPart; rw [h1.2.2.2.1, h2.2.2.2.1]
+  rw [hp, hh]
+
+/-- **HOST LETTER CASE for the raw-string entry point**: for ANY two byte strings of at most 65,535 bytes, the
+    complete result of URIParseCmp (verdict, error, index, both parsed URIs) is unchanged when the letter case of
+    host bytes of either string is changed — no condition on duplicates or on the lists being well formed. -/
+theorem uriParseCmp_host_case (raw1 raw1' raw2 raw2' : Buf) (f : Nat) (hfit1 : raw1.size ≤ 65535)
+    (hfit2 : raw2.size ≤ 65535) (v1 : UclHostCaseVariant raw1 raw1') (v2 : UclHostCaseVariant raw2 raw2') :
+    uriParseCmp raw1' raw2' f = uriParseCmp raw1 raw2 f := by
+  rw [uriParseCmp_eq, uriParseCmp_eq, parseURI_case raw1 raw1' {} (UclCaseVar.of_caseEq v1.caseEq),
+    parseURI_case raw2 raw2' {} (UclCaseVar.of_caseEq v2.caseEq)]
+  by_cases c1 : (parseURI raw1 {}).1 = UErr.none
+  · by_cases c2 : (parseURI raw2 {}).1 = UErr.none
+    · rw [ucl_uriCmp_get_congr _ raw1 raw1' _ raw2 raw2' f (ucl_host_variant_get raw1 raw1' hfit1 c1 v1)
+        (ucl_host_variant_get raw2 raw2' hfit2 c2 v2)]
+    · have b2 : ((parseURI raw2 {}).1 != UErr.none) = true := by simpa using c2
+      simp only [b2, ↓reduceIte]
+  · have b1 : ((parseURI raw1 {}).1 != UErr.none) = true := by simpa using c1
+    simp only [b1, ↓reduceIte]
+
+/-! ### tests / non-vacuity (closed computations, `decide +kernel`) -/
+
+section UclTests
+
+def uclRawA : Buf := "sip:Alice:pw@Example.COM:5060;transport=udp;Foo=Bar;lr?a=1&B=2".toUTF8.data
+/-- `uclRawA` with some host letters in the other case -/
+def uclRawA' : Buf := "sip:Alice:pw@eXAMPLE.com:5060;transport=udp;Foo=Bar;lr?a=1&B=2".toUTF8.data
+def uclRawB : Buf := "sips:bob@[2001:DB8::1];Method=INVITE;ttl=3".toUTF8.data
+def uclRawB' : Buf := "sips:bob@[2001:db8::1];Method=INVITE;ttl=3".toUTF8.data
+
+/-- test: the text-derived name lists -/
+example : uclParamNames (uclParamsText uclRawA) =
+    ["transport".toUTF8.data, "Foo".toUTF8.data, "lr".toUTF8.data] := by decide +kernel
+example : uclHdrNames (uclHdrsText uclRawA) = ["a".toUTF8.data, "B".toUTF8.data] := by decide +kernel
+
+/-- non-vacuity of the hypotheses of `uriParseCmp_refl_raw` / `uriParseCmp_symm_raw`: an accepted URI with user,
+    password, port, three parameters and two headers -/
+theorem uclRawA_acc : (parseURI uclRawA {}).1 = UErr.none := by decide +kernel
+theorem uclRawA_ok : UclListsOk uclRawA := by decide +kernel
+theorem uclRawA_nodup : UclNoDup uclRawA := by decide +kernel
+theorem uclRawB_acc : (parseURI uclRawB {}).1 = UErr.none := by decide +kernel
+theorem uclRawB_nodup : UclNoDup uclRawB := by decide +kernel
+
+/-- the theorems applied -/
+example (f : Nat) : uriParseCmp uclRawA uclRawA f =
+    some (true, UErr.none, 0, some (parseURI uclRawA {}).2.2.1, some (parseURI uclRawA {}).2.2.1) :=
+  uriParseCmp_refl_raw uclRawA f (by decide) uclRawA_acc uclRawA_ok uclRawA_nodup
+example (f : Nat) : (uriParseCmp uclRawA uclRawB f).map (·.1) = (uriParseCmp uclRawB uclRawA f).map (·.1) :=
+  uriParseCmp_symm_raw uclRawA uclRawB f (by decide) (by decide) (fun _ => uclRawA_nodup) (fun _ => uclRawB_nodup)
+
+/-- non-vacuity of `UclHostCaseVariant` (with a real change), host name and bracketed IPv6 reference -/
+theorem uclRawA_variant : UclHostCaseVariant uclRawA uclRawA' := by decide +kernel
+theorem uclRawB_variant : UclHostCaseVariant uclRawB uclRawB' := by decide +kernel
+example : uclRawA' ≠ uclRawA := by decide +kernel
+example (f : Nat) : uriParseCmp uclRawA' uclRawB' f = uriParseCmp uclRawA uclRawB f :=
+  uriParseCmp_host_case uclRawA uclRawA' uclRawB uclRawB' f (by decide) (by decide) uclRawA_variant uclRawB_variant
+/-- so the re-cased string equals the original one under every flag value -/
+example (f : Nat) : uriParseCmp uclRawA' uclRawA f =
+    some (true, UErr.none, 0, some (parseURI uclRawA {}).2.2.1, some (parseURI uclRawA {}).2.2.1) := by
+  rw [uriParseCmp_host_case uclRawA uclRawA' uclRawA uclRawA f (by decide) (by decide) uclRawA_variant
+    ⟨CaseEq.refl _, rfl, rfl⟩]
+  exact uriParseCmp_refl_raw uclRawA f (by decide) uclRawA_acc uclRawA_ok uclRawA_nodup
+
+/-- test: ParseURI on a string re-cased everywhere (scheme, user, host, parameters, headers) -/
+example : parseURI "SIP:ALICE:PW@EXAMPLE.COM:5060;TRANSPORT=UDP;FOO=BAR;LR?A=1&b=2".toUTF8.data {} = parseURI uclRawA {} :=
+  parseURI_case _ _ {} (UclCaseVar.of_caseEq (by decide +kernel))
+
+/-- the hypothesis `UclListsOk` of reflexivity is NECESSARY: ParseURI accepts `sip:a@b;<` (it does not look inside
+    the parameter string), ParseAllURIParams rejects `<`, and URIParseCmp then reports the URI different from
+    itself; same for a header string -/
+theorem ucl_refl_needs_listsOk :
+    (parseURI "sip:a@b;<".toUTF8.data {}).1 = UErr.none ∧ UclNoDup "sip:a@b;<".toUTF8.data ∧
+    (uriParseCmp "sip:a@b;<".toUTF8.data "sip:a@b;<".toUTF8.data 0).map (·.1) = some false ∧
+    (parseURI "sip:a@b?<".toUTF8.data {}).1 = UErr.none ∧ UclNoDup "sip:a@b?<".toUTF8.data ∧
+    (uriParseCmp "sip:a@b?<".toUTF8.data "sip:a@b?<".toUTF8.data 0).map (·.1) = some false := by decide +kernel
+
+/-- the hypothesis `UclNoDup` is necessary for reflexivity and for symmetry (names equal up to case count as
+    duplicates) -/
+theorem ucl_needs_nodup :
+    ¬ UclNoDup "sip:a@b;x=1;X=2".toUTF8.data ∧
+    (uriParseCmp "sip:a@b;x=1;X=2".toUTF8.data "sip:a@b;x=1;X=2".toUTF8.data 0).map (·.1) = some false ∧
+    (uriParseCmp "sip:a@b;x=1;X=2".toUTF8.data "sip:a@b;x=1".toUTF8.data 0).map (·.1) = some false ∧
+    (uriParseCmp "sip:a@b;x=1".toUTF8.data "sip:a@b;x=1;X=2".toUTF8.data 0).map (·.1) = some true := by decide +kernel
+
+/-- test / non-vacuity of `parseAllURIParams_ucl`: the mask is the set of stored types -/
+example : TypesOk (parseAllURIParams "user=phone;ttl=1;x".toUTF8.data 0 { params := Array.replicate 5 {} } 0).2.2.2 :=
+  (parseAllURIParams_ucl _ 0 5 0 (by decide) (by decide)).2.2 (by decide +kernel)
+
+end UclTests
+
 end Sipsp
